@@ -70,10 +70,13 @@ PROPS = {
                  'writes raw_* or osnr_nli.',
         'level_note': 'propagate() is a call-site summary in the verdict contract (its loop is proved per element in C02); '
                       'update_snr proved for up to three contributions; the automatic mode search loop '
-                      '(propagate_and_optimize_mode: ordering by baud rate then bit rate) is not under contract; penalty '
-                      'tables / out-of-table blocking / successive-mode histories are a bounded stand-in',
+                      '(propagate_and_optimize_mode: ordering by baud rate then bit rate, blocking reasons) is not under contract '
+                      'but a bounded stand-in against fixed-mode planning of every mode (random synthetic libraries, modes of one '
+                      'baud rate sharing one power offset); penalty tables / out-of-table blocking / successive-mode histories '
+                      'are a bounded stand-in',
         'trusted': NUMPY_TRUST + ['numpy.argmin (an index attaining the minimum)', 'propagate call-site summary'],
-        'extra': [{'name': 'penalties', 'kind': 'bounded', 'script': 'bounded/penalties.py'}],
+        'extra': [{'name': 'penalties', 'kind': 'bounded', 'script': 'bounded/penalties.py'},
+                  {'name': 'mode_search', 'kind': 'bounded', 'script': 'bounded/mode_search.py', 'timeout': 2400}],
     },
     'C14': {
         'level': 'proof',
